@@ -54,6 +54,12 @@ var coarseSitesExtra atomic.Pointer[map[string]bool]
 // fineSites is enabled by Engine B scenarios.
 var fineSites atomic.Bool
 
+// yieldFullIdentity makes yield identities carry the complete command and the deadline of the caller's context
+// instead of the first three arguments (48 bytes). Scenarios in which one task has several goroutines sending the
+// same command with different keys (rueidislock's per-key monitors) need it: goroutines with equal identities must
+// be interchangeable. Off by default; reset at the start of every run.
+var yieldFullIdentity atomic.Bool
+
 // randState drives the util random seam: value = hash(seed, counter)
 var randState struct {
 	seed uint64
@@ -350,6 +356,15 @@ func yieldIdentity(ctx context.Context, site string, obj any, cmd []string) stri
 	}
 
 	c := ""
+	if yieldFullIdentity.Load() {
+		c = fmt.Sprintf("%q", cmd)
+		if ctx != nil {
+			if dl, ok := ctx.Deadline(); ok {
+				c += fmt.Sprintf("|dl=%d", dl.UnixNano())
+			}
+		}
+		return who + "|" + site + "|" + where + "|" + c
+	}
 	if len(cmd) > 0 {
 		n := len(cmd)
 		if n > 3 {
@@ -412,9 +427,14 @@ func VerifSetSim(s *sched.Sim, seed uint64) {
 		queueTypeFromEnv = ""
 		muxRegReset(0)
 		richIdent.Store(false)
+		yieldFullIdentity.Store(false)
 	}
 	curSim.Store(s)
 }
+
+// VerifYieldFullIdentity makes yield identities carry the whole command and the context deadline (see
+// yieldFullIdentity). Call it after VerifSetSim; it lasts for the current run.
+func VerifYieldFullIdentity(on bool) { yieldFullIdentity.Store(on) }
 
 // VerifNameGoroutine registers the calling goroutine under a stable name (lock-wait identities).
 func VerifNameGoroutine(name string) { nameGoroutine(name) }
